@@ -30,7 +30,7 @@ Definition mutators : list string :=
     (* V *)  "vsetname"; "vsetclass"; "vaddtagref"; "vinsertvs"; "vinsertvg"; "vdeletetagref"; "vdelete"; "vdeleten"; "vsetattr";
     (* VS *) "vswrite"; "vssetname"; "vssetclass"; "vssetattr"; "vsdelete"; "vsdeleten"; "vssetexternalfile"; "vhstoredata";
              "vhmakegroup";
-    (* SD *) "sdcreate"; "sdwritedata"; "sdsetattr"; "sdsetdimname"; "sdsetdimscale"; "sdsetdimstrs";
+    (* SD *) "sdcreate"; "sdwritedata"; "sdwritedim"; "sdsetattr"; "sdsetdimname"; "sdsetdimscale"; "sdsetdimstrs";
              "sdsetdimval_comp"; "sdsetdatastrs"; "sdsetcal"; "sdsetfillvalue"; "sdsetrange"; "sdsetcompress";
              "sdsetchunk"; "sdsetexternalfile"; "sdsetnbitdataset"; "sdwritechunk";
     (* GR *) "grcreate"; "grwriteimage"; "grsetattr"; "grwritelut"; "grsetcompress"; "grsetchunk";
@@ -114,14 +114,14 @@ Definition step (s : st) (e : event) : st * list clause :=
   else if String.eqb name "hopen" then
     let w := wants_write (arg (e_args e) 1) in
     let s1 := match e_rc e with ROk => set_opens s (((0, arg (e_args e) 0), w) :: opens s) | _ => s end in
-    ({| opens := opens s1; snapped := true; rw_seen := rw_seen s || (w && match e_rc e with RNa => false | _ => true end);
+    ({| opens := opens s1; snapped := true; rw_seen := rw_seen s || (w && match e_rc e with ROk => true | _ => false end);
         tainted := tainted s; dump0 := dump0 s |},
      if w then [] else (if negb (any_rw s) && negb (Z.eqb (e_wcalls e) 0) then [WriteReachedDevice] else []) ++
                        (if negb (any_rw s) && negb (Z.eqb (e_wcreates e) 0) then [FileCreated] else []))
   else if String.eqb name "sdstart" then
     let w := wants_write (arg (e_args e) 2) in
     let s1 := match e_rc e with ROk => set_opens s (((1, arg (e_args e) 0), w) :: opens s) | _ => s end in
-    ({| opens := opens s1; snapped := true; rw_seen := rw_seen s || (w && match e_rc e with RNa => false | _ => true end);
+    ({| opens := opens s1; snapped := true; rw_seen := rw_seen s || (w && match e_rc e with ROk => true | _ => false end);
         tainted := tainted s; dump0 := dump0 s |},
      if w then [] else (if negb (any_rw s) && negb (Z.eqb (e_wcalls e) 0) then [WriteReachedDevice] else []) ++
                        (if negb (any_rw s) && negb (Z.eqb (e_wcreates e) 0) then [FileCreated] else []))
